@@ -1686,4 +1686,45 @@ theorem varyMethod_inv {n i : Nat} {ms ms2 : KV} {mm mm1 : SML} {labels labels1 
           · cases h
       · cases h
 
+
+/-! ### set independence: set `i` is computed from the base and its own slices only -/
+
+/-- what set `i` applies: for every described key, in order, the slice of its value list -/
+def slicesOf (n i : Nat) : KV → Option (List (String × List J))
+  | .nil => some []
+  | .cons k (.list l) rest => (slicesOf n i rest).map (fun t => (k, sliceFor n i l) :: t)
+  | .cons _ _ _ => none
+
+/-- apply the slices to a dictionary (no other input, no state from other sets) -/
+def applySlices (sm : SM) : KV → List (String × List J) → Except Rej KV
+  | d, [] => .ok d
+  | d, (k, xs) :: rest =>
+    match alterSeq sm d k xs with
+    | .ok d' => applySlices sm d' rest
+    | .error e => .error e
+
+theorem alterVariations_eq_applySlices (sm : SM) (n i : Nat) : ∀ (vars d : KV) (sl : List (String × List J)),
+    slicesOf n i vars = some sl → alterVariations sm n i d vars = applySlices sm d sl
+  | .nil, d, sl, h => by
+    simp only [slicesOf, Option.some.injEq] at h
+    subst h
+    simp [alterVariations, applySlices]
+  | .cons k (.list l) rest, d, sl, h => by
+    simp only [slicesOf] at h
+    cases hr : slicesOf n i rest with
+    | none => simp [hr] at h
+    | some t =>
+      simp only [hr, Option.map_some, Option.some.injEq] at h
+      subst h
+      simp only [alterVariations, applySlices]
+      cases alterSeq sm d k (sliceFor n i l) with
+      | error e => rfl
+      | ok d' => exact alterVariations_eq_applySlices sm n i rest d' t hr
+  | .cons k .null rest, _, _, h => by simp [slicesOf] at h
+  | .cons k (.bool _) rest, _, _, h => by simp [slicesOf] at h
+  | .cons k (.int _) rest, _, _, h => by simp [slicesOf] at h
+  | .cons k (.float _ _) rest, _, _, h => by simp [slicesOf] at h
+  | .cons k (.str _) rest, _, _, h => by simp [slicesOf] at h
+  | .cons k (.obj _) rest, _, _, h => by simp [slicesOf] at h
+
 end LdarModel.Holder
